@@ -31,7 +31,7 @@ def pick(cases, thorough, seed):
     return out
 
 
-def run_programs(chk, cases, progs_by_case, name_prefix, prelude, deps, extra_scen=None):
+def run_programs(chk, cases, progs_by_case, name_prefix, prelude, deps, on_prelude=""):
     """builds feature-on and feature-off crates, runs them, returns the enriched event list and expansion records"""
     events = []
     dropped_all = {}
@@ -43,7 +43,7 @@ def run_programs(chk, cases, progs_by_case, name_prefix, prelude, deps, extra_sc
             continue
         crate = vf.Crate(os.path.join(chk.work, name), name, features=(["unimock"] if feature else []),
                          deps=deps + (["unimock"] if feature else []))
-        crate.prelude = prelude
+        crate.prelude = prelude + (on_prelude if feature else "")
         desc = {}
         for c in mine:
             src, d = progs_by_case[c["case"]]
